@@ -27,8 +27,8 @@ RULE = ('magnitude-differential: C01 generators (random, constructed quotient ti
         'with two or three equally weighted ballot types so that majorities hinge on single votes) given once as int and once as Fraction to every '
         'non-score evaluator: identical outcomes. exact-types: no float in PureProportionality seats, split approvals, exact means, Gregory transfer tallies. '
         'non-trivial = result contains a tie, or k > 2^53; distinct by case hash')
-PARTIAL = ['scale invariance of Schulze / ranked pairs / Kemeny / largest remainder / STV / PAV / SPAV / positional / Bucklin / score rules: '
-           'metamorphic relation evaluated on the implementation per explored case (C11_scale_full_statement), not proved',
+PARTIAL = ['scale invariance of ranked pairs / Kemeny / largest remainder / STV / PAV / SPAV / positional / Bucklin / score rules: '
+           'metamorphic relation evaluated on the implementation per explored case, not proved (Schulze is proved: C11_scale_schulze, C11_scale_full)',
            'float-freeness of the implementation is by construction a per-case observation (the models compute in Q)']
 TRUSTED = []
 KS = [2, 3, 7, 10 ** 6, 10 ** 25 + 7]
